@@ -163,6 +163,21 @@ Theorem C05_discretisation_energy : forall (c : cfgR) (hist : list eventR) (i : 
 Proof. exact energy_discretisation. Qed.
 Print Assumptions C05_discretisation_energy.
 
+(* writeFreeEnergyFile: the value written for bin ix of the .pmf file is (M - E(ix)) times (biasTemperature + T)/
+   biasTemperature for well-tempered runs, where E(ix) is the sum of the TABULATED hills at the centre of the bin and M
+   the largest E over the grid (so the minimum of the file is 0); hills not yet tabulated are not in the file *)
+Theorem C05_pmf : forall (c : cfgR) (hist : list eventR) (temp : R) (ix : list Z),
+  cfg_ok c -> history_ok c hist -> c_use_grids c = true ->
+  index_ok (gsizes (s_geom (spec_run c hist))) ix = true ->
+  let E := fun jx => Esum (c_vars c) (s_tab (spec_run c hist)) (centre Rops (c_vars c) (s_geom (spec_run c hist)) jx) in
+  exists M : R,
+    (forall jx, index_ok (gsizes (s_geom (spec_run c hist))) jx = true -> (E jx <= M)%R) /\
+    (exists jx, index_ok (gsizes (s_geom (spec_run c hist))) jx = true /\ M = E jx) /\
+    pmf_value Rops c (final_state Rops c hist) temp ix =
+      ((M - E ix) * (if c_wt c then (c_bias_temp c + temp) / c_bias_temp c else 1))%R.
+Proof. exact pmf_holds. Qed.
+Print Assumptions C05_pmf.
+
 (* a list of admissible steps, saves and plain restarts is an admissible history *)
 Theorem C05_plain_history_ok : forall (c : cfgR) (hist : list eventR),
   Forall (plain_event c) hist -> history_ok c hist.
